@@ -458,6 +458,8 @@ NEW_ITEMS = [
     ('gain converted to float', 'CAG = float(CAG)'),
     ('gain list in channel order', 'AG.append(CAG)'),
     ('labels from $PnS for n = 1..$PAR, in channel order', "LBL = [F.text.get('$P{}S'.format(I4), None) for I4 in range(1, NCH + 1)]"),
+    ('stored: file', 'OBJ._infile = infile'),
+    ('stored: amplification types', 'OBJ._amplification_type = AMP'),
     ('stored: text', 'OBJ._text = F.text'),
     ('stored: analysis', 'OBJ._analysis = F.analysis'),
     ('stored: data type', 'OBJ._data_type = DTYPE'),
@@ -472,7 +474,7 @@ NEW_ITEMS = [
     ('stored: resolutions', 'OBJ._resolution = RES'),
 ]
 NEW_METAS = {m: m for m in ['F', 'TS', 'DTYPE', 'ADATE', 'ASTART', 'AEND', 'NCH', 'CHS', 'PNR', 'CI', 'RNG', 'RES', 'CDV', 'DV',
-                            'CAG', 'AG', 'LBL', 'OBJ']}
+                            'CAG', 'AG', 'LBL', 'OBJ', 'AMP']}
 for _i in ('I1', 'I2', 'I3', 'I4'):
     NEW_METAS[_i] = 'I'
 
@@ -507,7 +509,7 @@ def recorded_settings(cx):
     items = [it for it in NEW_ITEMS if it[0] in keep]
     cx.need(len(items) == len(keep), 'recorded_settings: keyword table rows renamed')
     metas = {m: NEW_METAS[m] for m in ('F', 'NCH', 'PNR', 'CI', 'RES', 'CAG', 'AG', 'OBJ', 'I3')}
-    b = inventory(fn, 'SETTINGS', items, metas)
+    b = inventory(fn, 'SETTINGS', items, metas, extra_defs_ok=('OBJ',))
     for m in ('AG', 'RES'):
         if m in b:
             v = b[m][1]
